@@ -1,11 +1,14 @@
 package main
 
+import "strings"
+
 func hs(pkg string, tagsBoth bool, w int, names ...string) []H {
 	var out []H
 	for _, n := range names {
-		out = append(out, H{Pkg: pkg, Fn: n, W: w})
+		cross := strings.HasPrefix(n, "HC04_") || n == "HC12_Subscribes" || n == "HC12_SubscriptionBits" || n == "HC12_ListenerCopy" || n == "HC12_Callback"
+		out = append(out, H{Pkg: pkg, Fn: n, W: w, Cross: cross})
 		if tagsBoth {
-			out = append(out, H{Pkg: pkg, Fn: n, W: w, Tags: "tiny"})
+			out = append(out, H{Pkg: pkg, Fn: n, W: w, Tags: "tiny", Cross: cross})
 		}
 	}
 	return out
